@@ -201,8 +201,8 @@ struct Guard {
             } \
             case 3: { \
                 future<int> f; \
-                c->prom = f.get_promise(); \
                 c->pend_k = a; \
+                c->prom = f.get_promise(); \
                 int r = co_await f; \
                 c->event(4, r); \
                 break; \
@@ -228,17 +228,25 @@ struct Guard {
                 } \
                 break;
 
-static generator<int> body0(CtxBase *c, const long *s, int n) {
-    std::optional<Guard> g0, g1, g2, g3;
-    int ng = 0;
-    for (int i = 0; i + 1 < n; i += 2) {
-        long k = s[i], a = s[i + 1];
-        switch (k) {
-            case 1: co_yield (int)a; break;
-            BODY_COMMON_CASES
-            default: break;
-        }
+#define BODY0_IMPL \
+    std::optional<Guard> g0, g1, g2, g3; \
+    int ng = 0; \
+    for (int i = 0; i + 1 < n; i += 2) { \
+        long k = s[i], a = s[i + 1]; \
+        switch (k) { \
+            case 1: co_yield (int)a; break; \
+            BODY_COMMON_CASES \
+            default: break; \
+        } \
     }
+
+static generator<int> body0(CtxBase *c, const long *s, int n) {
+    BODY0_IMPL
+}
+
+// the same body with its frame placed in a caller-supplied storage (README "Alokatory"): smoke engine gens
+static with_allocator<reusable_storage, generator<int>> body0s(reusable_storage &, CtxBase *c, const long *s, int n) {
+    BODY0_IMPL
 }
 
 static generator<int, int> body1(CtxBase *c, const long *s, int n) {
@@ -371,6 +379,57 @@ struct Ctx : CtxBase {
             r.kind = K_ENDT;
         }
         deliver(r);
+    }
+
+    // style 6: a plain awaiter (not a coroutine) subscribed through next_awt::subscribe; it counts its resumptions
+    struct CountAwt : awaiter {
+        long count = 0;
+        CountAwt() {
+            set_resume_fn([](awaiter *me, void *) noexcept -> suspend_point<void> {
+                static_cast<CountAwt *>(me)->count++;
+                return {};
+            });
+        }
+    };
+    CountAwt cawt;
+    std::optional<typename Gen<A>::next_awt> sub_next;
+    bool sub_active = false;
+    long cnt_report = 0;
+
+    void sub_poll() {
+        if (!sub_active || cawt.count == 0) return;
+        Result r;
+        bool b = sub_next->await_resume();
+        if (b) r = read_value();
+        else r.kind = K_ENDF;
+        cnt_report = cawt.count;
+        sub_active = false;
+        sub_next.reset();
+        deliver(r);
+    }
+    void sub_access() {
+        Result r;
+        cawt.count = 0;
+        cnt_report = 0;
+        try {
+            sub_next.emplace(do_next());
+            if (sub_next->await_ready()) {
+                bool b = sub_next->await_resume();
+                if (b) r = read_value();
+                else r.kind = K_ENDF;
+                sub_next.reset();
+                deliver(r);
+                return;
+            }
+            sub_active = true;
+            sub_next->subscribe(&cawt);
+            sub_poll();
+        } catch (const no_more_values_exception &) {
+            sub_active = false;
+            sub_next.reset();
+            r.kind = K_ENDT;
+            deliver(r);
+        }
     }
 
     task async_access(int style) {
